@@ -8,10 +8,11 @@ import Spec.Helpers
 import Spec.Routes
 import Spec.Args
 import Spec.RasterJudge
+import Spec.Purity
 
 namespace Spec
 
-def handlers : List (String → Req → Option String) := [handleCore, Vector.handle, Helpers.handle, Routes.handle, Args.handle, Raster.handle]
+def handlers : List (String → Req → Option String) := [handleCore, Vector.handle, Helpers.handle, Routes.handle, Args.handle, Raster.handle, Purity.handle]
 
 def judgeLine (line : String) : String :=
   let (cmd, r) := parseReq line
